@@ -14,6 +14,12 @@
                      juxtaposition would change the token list (`xfollow_ok`: what the first rune
                      after a token must not be); around `not in` it demands U+0020 only (known
                      finding C11-notin-spacing).
+   gaps_ok, notin_spaced, not_in_free
+                     simple decidable conditions that imply `layout_good` (TextProofs.v roomy_good): white
+                     space between all tokens, U+0020 inside and directly after `not in` (THE carve-out
+                     for the known finding), and no operator token `not` directly followed by `in`.
+   tree_textable t   decidable: every token the printer emits for t (whatever the parentheses) has a
+                     spelling.
    parse_text        parser.Parse on a source text: lexer.Lex, then the token-level parser.
    erase_loc         forgets every node location (the text-level theorems are stated modulo locations).
 
